@@ -1,0 +1,14 @@
+//go:build verif
+
+package document
+
+// Specification-only code for gvc (see /verif/DESIGN.md): compiled only under the build tag "verif", never part of
+// the library. roundTripLemma composes export and import so that the verifier checks, from the contracts of the two
+// functions alone, that a document exported and imported again holds the same raw bytes in every file.
+func roundTripLemma(doc *Document) (*Document, error) {
+	blob, err := doc.ToCbor()
+	if err != nil {
+		return nil, err
+	}
+	return NewDocumentFromCbor(blob)
+}
